@@ -12,27 +12,27 @@ sys.path.insert(0, str(V))
 CLAIMS = {
     # id: (design_ref, what the check decides, not decided / trusted base, technique)
     "C01": ("DESIGN.md §2 C01",
-            "Static proof-by-rule of the structural part: the three Memory indexes are written/deleted/read with one consistent key order each, all 8 pattern shapes read an index keyed by exactly the bound positions with complete enumeration of unbound ones, boundness is by identity, no yield inside a loop over live index state, default-context dict is copy-on-write, Graph set operators build the named Venn regions into fresh graphs, the per-triple context map and the per-context triple set are updated together, Graph.add/remove/triples forward the pattern unchanged with context=self.",
+            "Static proof-by-rule of the structural part: the three Memory indexes are written/deleted/read with one consistent key order each, all 8 pattern shapes read an index keyed by exactly the bound positions with complete enumeration of unbound ones, boundness is by identity, no yield inside a loop over live index state, default-context dict is copy-on-write, Graph set operators build the named Venn regions into fresh graphs, the per-triple context map and the per-context triple set are updated together, Graph.add/remove/triples forward the pattern unchanged with context=self, no Graph method mutates self while iterating self lazily, the stores' __len__ is computed from the index (no free-running counter).",
             "Not decided: the contextTriples/tripleContexts relational invariant over all histories (runtime dict contents); multi-threading. Trusted: CPython ast, rule tables.",
             "abstract interpretation of index key roles over 8 pattern shapes + snapshot-before-yield loop rule (ast)"),
     "C02": ("DESIGN.md §2 C02",
-            "Decides: an empty Graph given as context is never confused with 'no graph' (typed truthiness rule), context resolution on read paths never writes (call-graph effect rule), context key depends on identifier kind and value, default graph is re-registered after removal, Memory.remove drops the union entry only when no context remains, ConjunctiveGraph/Dataset write paths (add/addN/remove/__contains__) resolve the target graph through _graph()/_spoc and never map the default graph to the union for writing.",
+            "Decides: an empty Graph given as context is never confused with 'no graph' (typed truthiness rule), context resolution on read paths never writes (call-graph effect rule), context key depends on identifier kind and value, default graph is re-registered after removal, Memory.remove drops the union entry only when no context remains, ConjunctiveGraph/Dataset write paths (add/addN/remove/__contains__) resolve the target graph through _graph()/_spoc and never map the default graph to the union for writing; a quad written with graph None goes to the default graph; quads() of a named graph yields that graph only (open known finding F50); graphs are looked up by term equality; removing triples keeps a graph registered on a graph-aware store; no swapped same-named arguments (E8) in graph.py and the stores.",
             "Not decided: per-graph sets under default-context compression for every history. Trusted: mypy inference, ast, Store API contract.",
             "typed truthiness lint (mypy types) + call-graph effect analysis + CFG must-follow"),
     "C03": ("DESIGN.md §2 C03",
-            "Decides: serialisation terminates on cyclic/malformed rdf:List chains (every rdf:rest link-walk loop is bounded, guarded by a visited set, consumes the link or is called only under a guarded validator); N-Triples/Turtle string escape tables of writer and reader agree; RDF/XML xmlns declarations and element names use the same strict qname split; the JSON-LD reader tests converted values with `is None` (falsy literals kept); recursive Turtle-family writers mark a node done before writing its description; serializer memos are key-complete; the JSON-LD writer visits every blank-node subject and folds into @list only cells without a second referrer; the Turtle-family and pretty-xml collection abbreviations are chosen only by validators that require unshared blank cells with exactly rdf:first/rdf:rest (and, for parseType=Collection, no literal members) and mark every cell written.",
+            "Decides: serialisation terminates on cyclic/malformed rdf:List chains (every rdf:rest link-walk loop is bounded, guarded by a visited set, consumes the link or is called only under a guarded validator); N-Triples/Turtle string escape tables of writer and reader agree; RDF/XML xmlns declarations and element names use the same strict qname split; the JSON-LD reader tests converted values with `is None` (falsy literals kept); recursive Turtle-family writers mark a node done before writing its description; serializer memos are key-complete; the JSON-LD writer visits every blank-node subject and folds into @list only cells without a second referrer; the Turtle-family and pretty-xml collection abbreviations are chosen only by validators that require unshared blank cells with exactly rdf:first/rdf:rest (and, for parseType=Collection, no literal members) and mark every cell written; no serializer loop reads a stale variable of an earlier loop; XMLWriter never writes text with a CR into CDATA; turtle-family serialize() starts from reset(); a relative IRI form is kept only if it resolves back against the base.",
             "Not decided: equality of the reparsed graph (value-level: numeric shorthand, qname splitting, bnode inlining, RDF/XML nesting, JSON-LD conversion).",
             "link-walk termination rule + writer/reader escape-table comparison (ast)"),
     "C04": ("DESIGN.md §2 C04",
-            "Decides: solution streams are only materialised by multiplicity-preserving constructors outside the algebra's multiplicity-insensitive places; every algebra node the translator can emit has an evaluator arm and every expression Comp has an eval function; filter errors evaluate to false through _ebv; the operand that _join/_minus re-iterate is materialised; boundness of a variable is decided by identity/key membership; GRAPH ?g enumerates every named graph (only the default graph is skipped); DISTINCT/REDUCED remember whole solutions; CONSTRUCT instantiates the template once per solution of the multiset.",
+            "Decides: solution streams are only materialised by multiplicity-preserving constructors outside the algebra's multiplicity-insensitive places; every algebra node the translator can emit has an evaluator arm and every expression Comp has an eval function; filter errors evaluate to false through _ebv; the operand that _join/_minus re-iterate is materialised; boundness of a variable is decided by identity/key membership; GRAPH ?g enumerates every named graph (only the default graph is skipped); DISTINCT/REDUCED remember whole solutions; CONSTRUCT instantiates the template once per solution of the multiset; a sub-SELECT sees only the outer bindings of its projected variables; VALUES variables are part of the scope sets (open known finding F45); && stops at the first false operand; no swapped same-named arguments in the evaluator.",
             "Not decided: top-down vs bottom-up scoping equivalence (semantic).",
             "dataflow of solution streams into set()/dict + dispatch exhaustiveness tables (ast)"),
     "C05": ("DESIGN.md §2 C05",
-            "Decides the output side only: N-Triples/N-Quads literal writer escapes exactly the grammar's forbidden raw characters; every non-constant string interpolated into XML markup passes an escape/quoteattr sanitiser; JSON outputs come from json.dumps and no NaN/Infinity can reach it; on the input side three structural clauses: relative-IRI resolvers of the parsers agree on keeping empty query/parameter components (sibling agreement, known finding F30), parser memos (bnode label maps, resolved-reference caches) are key-complete with respect to re-bound parser state (@base), xml:lang=\"\" is a value (identity tests).",
+            "Decides the output side only: N-Triples/N-Quads literal writer escapes exactly the grammar's forbidden raw characters; every non-constant string interpolated into XML markup passes an escape/quoteattr sanitiser; JSON outputs come from json.dumps and no NaN/Infinity can reach it; on the input side three structural clauses: relative-IRI resolvers of the parsers agree on keeping empty query/parameter components (sibling agreement, known finding F30), parser memos (bnode label maps, resolved-reference caches) are key-complete with respect to re-bound parser state (@base), xml:lang=\"\" is a value (identity tests); pretty-xml declares the RDF namespace under the prefix it writes; containers inherited down the RDF/XML element stack are copied before they are extended.",
             "Not decided (no static argument in reach): that the hand-written parsers accept every legal spelling and that str/bytes/file/path inputs agree. Open known finding F30 (urljoin-based resolution in RDF/XML and JSON-LD).",
             "taint-style escape discipline over XML writers + escape-table check (ast)"),
     "C06": ("DESIGN.md §2 C06",
-            "Decides one necessary clause: a quad serializer never merges one enumerated context into a graph emitted under another name (no context folding), and graph-name emission sites test the default graph by identifier, not truthiness; TriX reader resets its current-graph state per graph element; RDF Patch deletes are graph-scoped; the TriG writer counts a blank-node graph label as a reference (never written as anonymous [ ]).",
+            "Decides one necessary clause: a quad serializer never merges one enumerated context into a graph emitted under another name (no context folding), and graph-name emission sites test the default graph by identifier, not truthiness; TriX reader resets its current-graph state per graph element; RDF Patch deletes are graph-scoped; the TriG writer counts a blank-node graph label as a reference (never written as anonymous [ ]); no swapped same-named graph arguments in quad parsers/serializers (E8); a quad serializer reads a graph's rows through that graph's view, never through dataset.triples(context=...); the TriX reader gives an unnamed <graph> a fresh blank-node graph (writer/reader agreement).",
             "Not decided: value-level round trip, RDF Patch diff algebra. Known finding: JSON-LD folds blank-node-named graphs into the default graph.",
             "effect analysis of graph-to-graph copies inside quad serializers (ast + mypy types)"),
     "C07": ("DESIGN.md §2 C07",
@@ -40,15 +40,15 @@ CLAIMS = {
             "Not decided: transitivity of Literal ordering across datatypes, n3()/from_n3 text round trip (value-level).",
             "field/normaliser table agreement between sibling dunder methods (ast)"),
     "C08": ("DESIGN.md §2 C08",
-            "Decides: every Aggregate_* name of the grammar has an accumulator class and vice versa; every modifier node has an evaluator arm; DISTINCT bookkeeping is uniform across Accumulator siblings; slice bounds are start and start+length; ORDER BY applies keys least-significant first on a stable sort without mutating the algebra; accumulators test running values by identity (falsy literals are values); DISTINCT/Project remember whole solutions; HAVING and ORDER BY variables are sampled per group unconditionally; MIN/MAX bind the extreme term itself; SUM and AVG agree on non-numeric members (numeric() before .datatype, SPARQLTypeError handled).",
+            "Decides: every Aggregate_* name of the grammar has an accumulator class and vice versa; every modifier node has an evaluator arm; DISTINCT bookkeeping is uniform across Accumulator siblings; slice bounds are start and start+length; ORDER BY applies keys least-significant first on a stable sort without mutating the algebra; accumulators test running values by identity (falsy literals are values); DISTINCT/Project remember whole solutions; HAVING and ORDER BY variables are sampled per group unconditionally; MIN/MAX bind the extreme term itself; SUM and AVG agree on non-numeric members (numeric() before .datatype, SPARQLTypeError handled); DISTINCT / REDUCED map to their own algebra nodes.",
             "Not decided: numeric promotion, mixed-term ordering, HAVING after aliasing (value-level).",
             "dispatch-table exhaustiveness + sibling agreement (ast)"),
     "C09": ("DESIGN.md §2 C09",
-            "Decides table consistency: first-match order of the Python->XSD rules respects subclassing (bool before int, datetime before date), each listed Python type maps to a datatype whose XSDToPython converter exists, well-formedness checkers are keyed by datatypes that have converters, accept both ends of the XSD value space of their integer datatype (constant folding of the comparison chains) and admit every Python type the converter can return; %Y strftime output of lexicalisers is zero-padded; Duration.__eq__/__ne__ cover the timedelta that parse_xsd_duration returns; float has a lexicaliser writing INF/-INF/NaN; `.value` is never tested by truthiness in Literal's value-space methods; no one-argument str() is applied to an expression whose static type includes bytes.",
+            "Decides table consistency: first-match order of the Python->XSD rules respects subclassing (bool before int, datetime before date), each listed Python type maps to a datatype whose XSDToPython converter exists, well-formedness checkers are keyed by datatypes that have converters, accept both ends of the XSD value space of their integer datatype (constant folding of the comparison chains) and admit every Python type the converter can return; %Y strftime output of lexicalisers is zero-padded; Duration.__eq__/__ne__ cover the timedelta that parse_xsd_duration returns; float has a lexicaliser writing INF/-INF/NaN; `.value` is never tested by truthiness in Literal's value-space methods; no one-argument str() is applied to an expression whose static type includes bytes; _parseBoolean knows every form _well_formed_boolean accepts; the xsd:token / normalizedString helpers use XSD white space only; Literal.eq covers every duration datatype.",
             "Not decided: lexical<->value faithfulness over value spaces, normalisation idempotence (runtime values).",
             "table extraction and consistency comparison (ast)"),
     "C10": ("DESIGN.md §2 C10",
-            "Decides ordering clauses: solutions are materialised before any mutation (WHERE evaluated once on the pre-state), all deletions for all solutions precede any insertion in evalModify, template blank nodes are created per solution, unbound template terms are skipped by identity tests, evalUpdate runs operations in request order with an arm for every update node, source==target short-circuit precedes the destructive step in ADD/MOVE/COPY, quads blocks naming one graph accumulate, update translation is not cached, writes outside GRAPH target the real default graph (never ctx.graph, the union view), and - by path-sensitive reaching definitions of the query context in evalModify under each USING/WITH presence combination - WITH selects the active graph of WHERE iff no USING is present and of the templates always, USING's scratch dataset is never the template target.",
+            "Decides ordering clauses: solutions are materialised before any mutation (WHERE evaluated once on the pre-state), all deletions for all solutions precede any insertion in evalModify, template blank nodes are created per solution, unbound template terms are skipped by identity tests, evalUpdate runs operations in request order with an arm for every update node, source==target short-circuit precedes the destructive step in ADD/MOVE/COPY, quads blocks naming one graph accumulate, update translation is not cached, writes outside GRAPH target the real default graph (never ctx.graph, the union view), the solution multiset is kept (no set()/dict.fromkeys over WHERE results), each operation of a request is translated under the prologue in force at its position, and - by path-sensitive reaching definitions of the query context in evalModify under each USING/WITH presence combination - WITH selects the active graph of WHERE iff no USING is present and of the templates always, USING's scratch dataset is never the template target.",
             "Not decided: per-solution GRAPH ?g template targeting, what the union-default switch makes WHERE see.",
             "CFG ordering (must-precede, loop separation, materialise-before-mutate) over update evaluators (ast)"),
     "C11": ("DESIGN.md §2 C11",
@@ -56,7 +56,7 @@ CLAIMS = {
             "Not decided: that composition/closure equal the relational definition (semantic).",
             "typed truthiness lint (mypy types) + loop-shape rules (ast)"),
     "C12": ("DESIGN.md §2 C12",
-            "Decides: no parser derives blank-node identity from document text (every BNode(arg) argument is generated or opt-in), every label->BNode map is owned by an object created per parse() call, parser modules only add to the sink (removals only of graphs proven empty).",
+            "Decides: no parser derives blank-node identity from document text (every BNode(arg) argument is generated or opt-in), every label->BNode map is owned by an object created per parse() call, parser modules only add to the sink (removals only of graphs proven empty); every source of the N3 position-id prefix is a constructor parameter no parser passes or uniqueURI(); label maps are keyed by the label alone (no parser state in the key).",
             "Not decided: isomorphism of two parses (follows from the above plus determinism). Known finding: HexTuples parser uses BNode(label) (tests pin it).",
             "dataflow classification of BNode(arg) sites + map lifetime + who-may-call on sink graphs (ast)"),
     "C13": ("DESIGN.md §2 C13",
@@ -64,23 +64,23 @@ CLAIMS = {
             "Not decided: determinism of repeated reads. Trusted: mypy call resolution, ownership lattice tables.",
             "whole-package call graph (mypy-resolved, override-closed) + ownership lattice FRESH/OUT-PARAM/SOURCE"),
     "C15": ("DESIGN.md §2 C15",
-            "Decides state clauses: the algebra tree is not mutated at evaluation time (sole exception Expr.eval's ctx set/cleared in finally), BGP reordering builds a new list, ReadOnlyGraphAggregate.triples handles a Path predicate without clobber; the translated algebra of a request is used for that call only (no cache keyed by a part of its inputs); paths are stateless; re-binding in QueryContext/Bindings is decided by membership.",
+            "Decides state clauses: the algebra tree is not mutated at evaluation time (sole exception Expr.eval's ctx set/cleared in finally), BGP reordering builds a new list, ReadOnlyGraphAggregate.triples handles a Path predicate without clobber; the translated algebra of a request is used for that call only (no cache keyed by a part of its inputs); paths are stateless; re-binding in QueryContext/Bindings is decided by membership; a prologue resolves every prefix it declares (own map); PN_LOCAL escapes are removed by a parse action.",
             "Not decided: permutation/rename/prefix invariance, initBindings == VALUES (semantic).",
             "effect analysis with CompValue-typed receivers (mypy types + ast)"),
     "C16": ("DESIGN.md §2 C16",
-            "Decides table agreement: JSON type tags and keys written by termToJSON are inverted by parseJsonTerm to the same class; XML element/attribute names written per term class are those parseTerm dispatches on; unbound cells tested by identity in all four writers; SAX characters() always gets str(value) (falsy literals are not dropped); writers take rows from result.bindings (all-unbound rows kept); record readers do not use str.splitlines(); JSON cells are parsed individually; the XML datatype attribute is written whenever a datatype is present; Result.bindings extends the rows already collected; literal text is written with CR as &#13; (as the repository's XMLWriter does).",
+            "Decides table agreement: JSON type tags and keys written by termToJSON are inverted by parseJsonTerm to the same class; XML element/attribute names written per term class are those parseTerm dispatches on; unbound cells tested by identity in all four writers; SAX characters() always gets str(value) (falsy literals are not dropped); writers take rows from result.bindings (all-unbound rows kept); record readers do not use str.splitlines(); JSON cells are parsed individually; the XML datatype attribute is written whenever a datatype is present; Result.bindings extends the rows already collected; literal text is written with CR as &#13; (as the repository's XMLWriter does); a text layer over a binary result source does not translate line ends; <results> is opened on every SELECT path; Result.__iter__ records a row before yielding it.",
             "Not decided: TSV grammar, CSV quoting, control characters (value-level).",
             "writer/reader tag-table extraction and comparison (ast) + typed truthiness lint"),
     "C17": ("DESIGN.md §2 C17",
-            "Decides memo invalidation: on every path of a NamespaceManager method that reaches store.bind both qname memo dicts are cleared; wherever one memo is invalidated the other is too; memo reads are keyed by the IRI; Store.bind primitives keep the two maps inverse on the override path; normalizeUri assembles prefix and local name from one compute_qname result; graph views of one dataset share one NamespaceManager (open known finding F27 for the default-graph object); namespace/prefix memos are key-complete; bind() of the in-memory stores writes only the requested (prefix, namespace) pair, never an entry assembled from two looked-up bindings.",
+            "Decides memo invalidation: on every path of a NamespaceManager method that reaches store.bind both qname memo dicts are cleared; wherever one memo is invalidated the other is too; memo reads are keyed by the IRI; Store.bind primitives keep the two maps inverse on the override path; normalizeUri assembles prefix and local name from one compute_qname result; graph views of one dataset share one NamespaceManager (open known finding F27 for the default-graph object); namespace/prefix memos are key-complete; bind() of the in-memory stores writes only the requested (prefix, namespace) pair, never an entry assembled from two looked-up bindings; prefix registration is skipped only in predicate position.",
             "Not decided: inverse-ness of the store's two dicts (value reasoning; observed defect F6 out of reach).",
             "pairing rule on CFG paths: bind => invalidate both memos (ast)"),
     "C18": ("DESIGN.md §2 C18",
-            "Decides undo-log discipline of AuditableStore: every path reaching the wrapped mutator logs the same quad, no-op guard returns before logging, cancel-or-append shape, tags logged are dispatched by rollback to the inverse operation, commit/rollback clear the log, wildcard removes are expanded before logging; only add/remove/rollback/destroy call the wrapped mutators; the logged quad is the mutated quad; the context handed to the wrapped store is re-homed by identity tests (an empty graph is still a graph); rollback resets the log under the lock.",
+            "Decides undo-log discipline of AuditableStore: every path reaching the wrapped mutator logs the same quad, no-op guard returns before logging, cancel-or-append shape, tags logged are dispatched by rollback to the inverse operation, commit/rollback clear the log, wildcard removes are expanded before logging; only add/remove/rollback/destroy call the wrapped mutators (rollback replays on the wrapped store, found through a log alias too); presence guards and the single-quad branch test see the context; the logged quad is the mutated quad; the context handed to the wrapped store is re-homed by identity tests (an empty graph is still a graph); rollback resets the log under the lock.",
             "Not decided: two-wrapper interleavings (schedules).",
             "CFG must-pass-through + tag table agreement (ast)"),
     "C19": ("DESIGN.md §2 C19",
-            "Decides: Collection members are tested by identity not truthiness; every rdf:rest walk in Collection/Graph.items terminates on cyclic chains (counter, visited set or link removal); no stale cached cell after deletions; append/__iadd__/clear/__delitem__ keep the chain well-formed (terminating rdf:nil, relink on delete); walk errors propagate instead of being reported as `absent`; mutating loops do not iterate a lazy walk of the chain they change and new cells are fresh blank nodes; _get_container never returns rdf:nil as a cell, negative indices are normalised by len, __delitem__ asks for a predecessor only for key > 0 (open known finding F39b: c[len(c)] = x appends, pinned by an infixowl test).",
+            "Decides: Collection members are tested by identity not truthiness; every rdf:rest walk in Collection/Graph.items terminates on cyclic chains (counter, visited set or link removal); no stale cached cell after deletions; append/__iadd__/clear/__delitem__ keep the chain well-formed (terminating rdf:nil, relink on delete); walk errors propagate instead of being reported as `absent`; mutating loops do not iterate a lazy walk of the chain they change and new cells are fresh blank nodes; _get_container never returns rdf:nil as a cell, negative indices are normalised by len, __delitem__ asks for a predecessor only for key > 0 (open known finding F39b: c[len(c)] = x appends, pinned by an infixowl test); cell occupancy is read from the graph per item; __iadd__ works on a materialised, non-empty input.",
             "Not decided: index arithmetic (negative indices, IndexError vs KeyError, head deletion).",
             "typed truthiness lint + link-walk termination rule (ast + mypy types)"),
     "C20": ("DESIGN.md §2 C20",
